@@ -1,10 +1,10 @@
-(* Tie/Rpm.v — the generated translation of pkg/ecosystem/rpm (Gen/Code/Rpm.v) against the
-   model (Eco/Rpm).  compareRPMVersionString (rpmvercmp loop) is outside the
-   translated fragment: Compare and the range switch are tied generically in it. *)
+(* Tie/Rpm.v — VERSION level: the generated translation of pkg/ecosystem/rpm
+   (Gen/Code/Rpm.v) against the model (Eco/Rpm/Version).  compareRPMVersionString (loop) is outside the
+   translated fragment: Compare is tied generically in it.  The range-level ties are in
+   Tie/RpmRange.v (which depends on this file, never the other way round). *)
 From Coq Require Import ZArith List Bool Lia.
 From Verif.Base Require Import Bytes GoNum GoOps Ord.
-From Verif.Eco Require Import RangeCore.
-From Verif.Eco.Rpm Require Version Range.
+From Verif.Eco.Rpm Require Version.
 From Verif.Gen.Code Require Rpm.
 From Verif.Tie Require Import Tactics.
 Import ListNotations.
@@ -29,28 +29,5 @@ Section Compare.
   Theorem tie_rpm_compare : forall a b,
     G.Version_Compare compareRPMVersionString a b = Z_of_cmp (M.cmp_core (abs a) (abs b)).
   Proof. tie_solve_with compareRPMVersionString_model. Qed.
-
-  (* range: the operator switch, for any Compare (it stays folded) *)
-  Local Opaque G.Version_Compare.
-  Theorem tie_rpm_satisfiesRPMConstraint : forall c v,
-    G.satisfiesRPMConstraint compareRPMVersionString v c =
-    sat (rc_sem Range.cfg (G.constraint_operator c)) (cmp_of_Z (G.Version_Compare compareRPMVersionString v (G.constraint_version c))).
-  Proof. tie_solve. Qed.
-
-  Corollary tie_rpm_satisfiesRPMConstraint_model : forall c v,
-    G.satisfiesRPMConstraint compareRPMVersionString v c =
-    sat (rc_sem Range.cfg (G.constraint_operator c)) (M.cmp_core (abs v) (abs (G.constraint_version c))).
-  Proof. intros. rewrite tie_rpm_satisfiesRPMConstraint, tie_rpm_compare, cmp_of_Z_of_cmp. reflexivity. Qed.
-
-  Theorem tie_rpm_contains : forall r v,
-    G.VersionRange_Contains compareRPMVersionString r v =
-    forallb (fun c => sat (rc_sem Range.cfg (G.constraint_operator c)) (M.cmp_core (abs v) (abs (G.constraint_version c))))
-            (G.VersionRange_constraints r).
-  Proof.
-    intros. unfold G.VersionRange_Contains. apply forallb_ext_in. intros c _. apply tie_rpm_satisfiesRPMConstraint_model.
-  Qed.
 End Compare.
 Print Assumptions tie_rpm_compare.
-Print Assumptions tie_rpm_satisfiesRPMConstraint.
-Print Assumptions tie_rpm_satisfiesRPMConstraint_model.
-Print Assumptions tie_rpm_contains.
